@@ -1,0 +1,153 @@
+//go:build verif
+
+package sets
+
+// Machine-checked contracts for package sets (read by /verif/govc; this file
+// contains comments only and is compiled only with build tag verif).
+//
+// Abstract view of a StringSet s: the finite set of keys of s.set.
+// "e in s.set" is membership, len(s.set) is the cardinality.
+// Every operation is specified over the whole view, with its frame
+// (`modifies`) and the freshness of what it returns.
+//
+//@ func NewStringSet
+//@   ensures fresh(result) && fresh(result.set) && result.set != nil
+//@   ensures forall i int :: 0 <= i && i < len(elements) ==> elements[i] in result.set
+//@   ensures forall e string :: (e in result.set) ==> (exists i int :: 0 <= i && i < len(elements) && elements[i] == e)
+//@   ensures len(elements) == 0 ==> len(result.set) == 0
+//@   modifies nothing
+//@   props C20
+//@
+//@ func (*StringSet).Insert
+//@   requires s != nil && s.set != nil
+//@   ensures s.set == old(s.set)
+//@   ensures forall i int :: 0 <= i && i < len(elements) ==> elements[i] in s.set
+//@   ensures forall e string :: old(e in s.set) ==> (e in s.set)
+//@   ensures forall e string :: (e in s.set) && !old(e in s.set) ==> (exists i int :: 0 <= i && i < len(elements) && elements[i] == e)
+//@   ensures len(elements) == 0 ==> len(s.set) == old(len(s.set))
+//@   modifies entries(s.set)
+//@   loop 1 invariant -1 <= rangeindex && (rangeindex < len(elements) || rangeindex == -1)
+//@   loop 1 invariant forall i int :: 0 <= i && i <= rangeindex ==> elements[i] in s.set
+//@   loop 1 invariant forall e string :: old(e in s.set) ==> (e in s.set)
+//@   loop 1 invariant forall e string :: (e in s.set) && !old(e in s.set) ==> (exists i int :: 0 <= i && i <= rangeindex && elements[i] == e)
+//@   loop 1 invariant rangeindex == -1 ==> len(s.set) == old(len(s.set))
+//@   props C20
+//@
+//@ func (*StringSet).Delete
+//@   requires s != nil
+//@   ensures s.set == old(s.set)
+//@   ensures forall i int :: 0 <= i && i < len(elements) ==> !(elements[i] in s.set)
+//@   ensures forall e string :: (e in s.set) ==> old(e in s.set)
+//@   ensures forall e string :: old(e in s.set) && !(e in s.set) ==> (exists i int :: 0 <= i && i < len(elements) && elements[i] == e)
+//@   modifies entries(s.set)
+//@   loop 1 invariant -1 <= rangeindex && (rangeindex < len(elements) || rangeindex == -1)
+//@   loop 1 invariant forall i int :: 0 <= i && i <= rangeindex ==> !(elements[i] in s.set)
+//@   loop 1 invariant forall e string :: (e in s.set) ==> old(e in s.set)
+//@   loop 1 invariant forall e string :: old(e in s.set) && !(e in s.set) ==> (exists i int :: 0 <= i && i <= rangeindex && elements[i] == e)
+//@   props C20
+//@
+//@ func (*StringSet).Copy
+//@   ensures fresh(result) && fresh(result.set) && result.set != nil
+//@   ensures s == nil ==> len(result.set) == 0
+//@   ensures s != nil ==> (forall e string :: (e in result.set) <==> (e in s.set))
+//@   ensures s != nil ==> len(result.set) == len(s.set)
+//@   modifies nothing
+//@   loop 1 invariant c != nil && c.set != nil && fresh(c) && fresh(c.set)
+//@   loop 1 invariant forall e string :: (e in c.set) <==> visited(e)
+//@   loop 1 invariant len(c.set) == nvisited()
+//@   props C20
+//@
+//@ func (*StringSet).Intersect
+//@   requires s != nil
+//@   ensures fresh(result) && fresh(result.set) && result.set != nil
+//@   ensures other == nil ==> len(result.set) == 0
+//@   ensures other != nil ==> (forall e string :: (e in result.set) <==> ((e in s.set) && (e in other.set)))
+//@   modifies nothing
+//@   loop 1 invariant intersect != nil && intersect.set != nil && fresh(intersect) && fresh(intersect.set)
+//@   loop 1 invariant forall e string :: (e in intersect.set) <==> (visited(e) && (e in b))
+//@   props C20
+//@
+//@ func (*StringSet).Disjoint
+//@   requires s != nil
+//@   ensures result <==> (other == nil || !(exists e string :: (e in s.set) && (e in other.set)))
+//@   modifies nothing
+//@   loop 1 invariant forall e string :: visited(e) ==> !(e in b)
+//@   props C20
+//@
+//@ func (*StringSet).Difference
+//@   requires s != nil
+//@   ensures fresh(result) && fresh(result.set) && result.set != nil
+//@   ensures other == nil ==> (forall e string :: (e in result.set) <==> (e in s.set))
+//@   ensures other != nil ==> (forall e string :: (e in result.set) <==> ((e in s.set) && !(e in other.set)))
+//@   modifies nothing
+//@   loop 1 invariant diff != nil && diff.set != nil && fresh(diff) && fresh(diff.set)
+//@   loop 1 invariant forall e string :: (e in diff.set) <==> (visited(e) && !(e in other.set))
+//@   props C20
+//@
+//@ func (*StringSet).Unique
+//@   requires s != nil
+//@   ensures fresh(result) && fresh(result.set) && result.set != nil
+//@   ensures other == nil ==> (forall e string :: (e in result.set) <==> (e in s.set))
+//@   ensures other != nil ==> (forall e string :: (e in result.set) <==> ((e in s.set) != (e in other.set)))
+//@   modifies nothing
+//@   loop 1 invariant unique != nil && unique.set != nil && fresh(unique) && fresh(unique.set)
+//@   loop 1 invariant otherNotInS != nil && fresh(otherNotInS.set) && otherNotInS.set != unique.set
+//@   loop 1 invariant forall e string :: (e in otherNotInS.set) <==> ((e in other.set) && !(e in s.set))
+//@   loop 1 invariant forall e string :: (e in unique.set) <==> (((e in s.set) && !(e in other.set)) || visited(e))
+//@   props C20
+//@
+//@ func (*StringSet).Equal
+//@   ensures (s == nil || other == nil) ==> (result <==> (s == nil && other == nil))
+//@   ensures (s != nil && other != nil) ==> (result <==> (forall e string :: (e in s.set) <==> (e in other.set)))
+//@   modifies nothing
+//@   loop 1 invariant forall e string :: visited(e) ==> (e in other.set)
+//@   uses CARD-SUBSET
+//@   props C20
+//@
+//@ func (*StringSet).Union
+//@   ensures fresh(result) && fresh(result.set) && result.set != nil
+//@   ensures forall e string :: (e in result.set) <==> ((s != nil && (e in s.set)) || (other != nil && (e in other.set)))
+//@   modifies nothing
+//@   loop 1 invariant union != nil && union.set != nil && fresh(union) && fresh(union.set)
+//@   loop 1 invariant forall e string :: (e in union.set) <==> ((s != nil && (e in s.set)) || visited(e))
+//@   props C20
+//@
+//@ func (*StringSet).Contains
+//@   requires s != nil
+//@   ensures result <==> (element in s.set)
+//@   modifies nothing
+//@   props C20
+//@
+//@ func (*StringSet).Len
+//@   requires s != nil
+//@   ensures result == len(s.set)
+//@   modifies nothing
+//@   props C20
+//@
+//@ func (*StringSet).Empty
+//@   requires s != nil
+//@   ensures result <==> !(exists e string :: e in s.set)
+//@   modifies nothing
+//@   props C20
+//@
+//@ func (*StringSet).Elements
+//@   requires s != nil
+//@   ensures fresh(result) && len(result) == len(s.set)
+//@   ensures forall i int :: 0 <= i && i < len(result) ==> result[i] in s.set
+//@   ensures forall e string :: (e in s.set) ==> (exists i int :: 0 <= i && i < len(result) && result[i] == e)
+//@   ensures forall i int, j int :: 0 <= i && i < j && j < len(result) ==> result[i] != result[j]
+//@   modifies nothing
+//@   loop 1 invariant len(elements) == nvisited() && fresh(elements)
+//@   loop 1 invariant forall i int :: 0 <= i && i < len(elements) ==> visited(elements[i])
+//@   loop 1 invariant forall e string :: visited(e) ==> (exists i int :: 0 <= i && i < len(elements) && elements[i] == e)
+//@   loop 1 invariant forall i int, j int :: 0 <= i && i < j && j < len(elements) ==> elements[i] != elements[j]
+//@   props C20
+//@
+//@ func (*StringSet).Sorted
+//@   requires s != nil
+//@   ensures fresh(result) && len(result) == len(s.set)
+//@   ensures forall i int :: 0 <= i && i < len(result) ==> result[i] in s.set
+//@   ensures forall e string :: (e in s.set) ==> (exists i int :: 0 <= i && i < len(result) && result[i] == e)
+//@   ensures forall i int, j int :: 0 <= i && i < j && j < len(result) ==> !(result[j] < result[i])
+//@   modifies nothing
+//@   props C20
